@@ -4,7 +4,7 @@
    (wf_cfg: shard WAL on, member-local clamp of ClearEntryLog, propose ids never reused); Refuted.v shows what fails
    for today's variants. Not expressible here (partial claim): timing, timeouts, real network behaviour. *)
 From Coq Require Import List Arith NArith ZArith Bool Lia Permutation.
-From OG Require Import C05.Model C05.Proofs C05.Invariant C05.Theorems C05.Final C05.Trunc C05.TruncProofs C05.Catchup C05.ReadPath C05.Refine C05.RestartRace C05.TruncPM C05.Coord.
+From OG Require Import C05.Model C05.Proofs C05.Invariant C05.Theorems C05.Final C05.Trunc C05.TruncProofs C05.Catchup C05.ReadPath C05.Refine C05.RestartRace C05.TruncPM C05.Coord C05.Persist.
 Import ListNotations.
 
 Section C05.
@@ -535,3 +535,19 @@ Proof. exact batch_all_stored_acked. Qed.
 Example partial_batch_demo :
   batch_write 10 [[WOk]; [WRetry; WFail]; [WRetry; WOk]] = (false, [(true, 1); (false, 2); (true, 2)]).
 Proof. vm_compute. reflexivity. Qed.
+
+(* ---------------------------------------------------------------- persistence before send, per role (Persist.v) *)
+(* every member answers on the follower path (an acknowledgement carries only what is durable): what the leader has
+   committed - and acknowledged to the client - is on the disk of a quorum at every instant of every run, whichever
+   members are killed whenever *)
+Theorem acknowledged_is_on_disk_of_a_quorum : forall n es s, prun n true pinit es = Some s ->
+  pcommit s = 0 \/ n < 2 * cnt n (fun m => Nat.leb (pcommit s) (pd s m)).
+Proof. exact committed_on_disk_of_quorum. Qed.
+Print Assumptions acknowledged_is_on_disk_of_a_quorum.
+
+Example persist_run_demo :
+  match prun 3 true pinit [PRecv 0 1; PPersist 0; PAck 0; PRecv 1 1; PAck 1; PKill 1; PRecv 1 1; PPersist 1; PAck 1; PCommit 1] with
+  | Some s => pcommit s = 1 /\ pd s 0 = 1 /\ pd s 1 = 1
+  | None => False
+  end.
+Proof. vm_compute. repeat split. Qed.
